@@ -2064,7 +2064,7 @@ func appProperties() []*propertySpec {
 			Explanation: "Static analysis of every os.Remove/RemoveAll call site of the module with its interprocedural entry conditions (greatest fixpoint over the call graph of the Options.*/HasTask guards): CL1 classifies every root of the removed path by backward slicing (only output fields, their Vars/Globs indirections and SpokFile.Dir + cache constants are allowed); CL2 proves each output field and the cache directory reach the removal, globs through their expansion; CL3 proves a test relating each removed path to SpokFile.Dir with an erroring side precedes the removal (at the sink or as a validate-all pass that dominates it); CL4 proves the entry conditions Clean == true and HasTask(\"clean\") == false and that the true side runs the task named \"clean\".",
 			NotCovered:  []string{"that the containment predicate itself is correct for every path string", "directories matched by output globs"},
 			Assumptions: []string{"os.RemoveAll removes exactly the named path and what is below it"},
-			Rules:       []func(*Ctx) *rule{ruleCL1, ruleCL2, ruleCL3, ruleCL4, ruleCL6}},
+			Rules:       []func(*Ctx) *rule{ruleCL1, ruleCL2, ruleCL3, ruleCL4, ruleCL6, ruleTK3, ruleGL2}},
 		{ID: "C19", Title: "Spok writes only where the chosen action says it may",
 			Explanation: "Effect analysis: FX1 enumerates every call of a file-mutating primitive (frozen per-function table for os, per-package table for every other external package the module calls; an unlisted callee makes the check undecided) with its interprocedural entry conditions and proves that any site not under Init/Fmt/Clean is rooted in <SpokFile.Dir>/<cache constants>; FX2 proves the single --fmt write targets Options.Spokfile with Tree.String() and is dominated by the success of Parse and file.New; FX3 proves the --init existence guard on the same path and the O_APPEND/no-O_TRUNC flags; FX4 proves listing branches reach no mutation; FX6 that the logger has no file sink; CL1/CL3/CL4 (shared with C12) cover the --clean branch.",
 			NotCovered:  []string{"effects of user commands and exec(...) builtins (excluded by the property)", "writes performed inside third-party packages classed non-mutating (audited by reading, see DESIGN.md appendix B)"},
